@@ -111,7 +111,67 @@ class LoopCheck(Check):
         if env.stopped and cfg["schedule"] not in loop_checks.TERMINATING:
             raise core.PathCut()
         loop_checks.check_run(ctx, env, self.props)
+        self.validate_against_numpy(ctx, cfg, env)
         return env
+
+    def validate_against_numpy(self, ctx, cfg, env):
+        """Translator validation for a whole run: a model of the path condition
+        is turned into concrete coordinates / kernel outputs / index draws and a
+        value table for L, PI, Q; the real sampler is run on NumPy over the
+        concrete fake kernels, and its temperatures, per-step ratios and
+        evidence are compared with the symbolic outputs evaluated under the
+        model."""
+        if ctx.frontier_depth is not None or env.final is None:
+            return
+        from harness import loop_replay as LR
+
+        hist = env.sampler.history
+        outs = [sx.term(t) if isinstance(t, sx.Array) else core.rv(float(t)) for t in hist.log_norm_ratio]
+        outs.append(sx.term(env.final.log_evidence) if isinstance(env.final.log_evidence, sx.Array) else core.rv(float(env.final.log_evidence)))
+        w = ctx.witness(extra_terms=outs)
+        if w is None:
+            raise core.HarnessError("vacuous path in the loop harness")
+        import math
+
+        pur = dict(w.get("__purified__", {}))
+        # real point of the log-space problem: user-function values follow their
+        # exp companions (value := D ln E), as for plain variables
+        for atom, e in ctx.exp_atoms.values():
+            ev = w.get(e.decl().name())
+            if core.is_uf_app(atom) and ev is not None and ev > 0:
+                pur[str(atom)] = ctx.D * math.log(ev)
+        w = {k: v for k, v in w.items() if not k.startswith("E!")}
+        w["__purified__"] = pur
+        cex = {"cfg": dict(cfg, flow="plain"), "env": {k: v for k, v in w.items() if k != "__purified__"}, "purified": pur}
+        model = LR.Model(cex)
+        fns = {"L": lambda *a: float(model.L([list(a)])[0]), "PI": lambda *a: float(model.PI([list(a)])[0]), "Q": lambda *a: float(model.Q([list(a)])[0])}
+        # the model must be a real point (exp companions consistent with the
+        # user-function values): evaluate the path condition with the true exp
+        try:
+            for f in ctx.constraints():
+                if core.numeval(f, w, fns, ctx.D, ctx.exp_names, approx=True) is not True:
+                    return
+        except (core.HarnessError, OverflowError, ValueError, ZeroDivisionError):
+            return
+        LR._install()
+        try:
+            with LR._Tolerance():
+                world = LR.World(cex, model).build().run()
+        finally:
+            from harness import smc_loop
+
+            smc_loop.install_fake_kernels()
+        if world.error is not None or world.final is None:
+            raise core.HarnessError(f"translator validation: the concrete run failed: {world.error}")
+        h2 = world.sampler.history
+        if [float(b) for b in h2.beta] != [float(b) for b in hist.beta]:
+            raise core.HarnessError(f"translator validation: temperatures differ: NumPy {list(h2.beta)} vs symbolic path {list(hist.beta)}")
+        conc = [float(v) for v in h2.log_norm_ratio] + [float(world.final.log_evidence)]
+        for k, (t, c) in enumerate(zip(outs, conc)):
+            g = core.numeval(t, w, fns, ctx.D, ctx.exp_names)
+            if abs(g - c) > 1e-6 * max(1.0, abs(g), abs(c)):
+                raise core.HarnessError(f"translator validation failed for output {k}: symbolic {g!r} vs NumPy {c!r}")
+        ctx.stats.validated += 1
 
     # -- resume (C11; the per-run clauses again on every resumed run) ----------
     def flow_resume(self, ctx, cfg, fns, tmp):
